@@ -305,8 +305,8 @@ fn c07(cli: &Cli) {
     plans.push((mk("wide: every template, both strategies", u.clone(), wide), 1));
     // histories over a core set
     let core = t(&["xfer", "dep", "call_ok", "call_rvrt", "call_tro", "create", "call_c3", "msgdata_rvrt", "msg_relayed", "call_smo"]);
-    let deep = letters(&lists(&core, if thorough { 2 } else { 1 }), &[(1, 1, 1), (0, 0, 0)], SRC_ONCE);
-    plans.push((mk("deep: histories over the core templates, both strategies", u.clone(), deep), 2));
+    let deep = letters(&lists(&core, 1), &[(1, 1, 1), (0, 0, 0)], SRC_ONCE);
+    plans.push((mk("deep: histories over the core templates, both strategies", u.clone(), deep), if thorough { 3 } else { 2 }));
     // pre-checked transactions cross the WASM boundary in their serialized form
     let chk = letters(&lists(&t(&["xfer", "pred", "call_ok", "expiring", "missing", "blob"]), if thorough { 2 } else { 1 }), &[(1, 1, 1)], SRC_CHECKED);
     plans.push((mk("pre-checked transactions, both strategies", u.clone(), chk), 2));
